@@ -42,6 +42,8 @@ var c14FailInt = []struct {
 	}},
 	{"kind_mismatch", func() gast.Expr { return &gast.Bin{Op: gast.OpMul, L: gast.P("F", "S"), R: gast.I(2)} }},
 	{"json_missing_member", func() gast.Expr { return gast.P("J", "nope") }},
+	{"integer_key_on_string_map", func() gast.Expr { return gast.P("F", "ROM").At(gast.I(97)) }},
+	{"integer_variable_key_on_string_map", func() gast.Expr { return gast.P("F", "ROM").At(gast.P("F", "I64")) }},
 	{"nil_pointer", func() gast.Expr { return gast.P("F", "Sub", "X") }}, // with F.Sub == nil
 }
 
@@ -233,7 +235,10 @@ func c14Inject(rt *rapid.T, r *gast.Rule, st *facts.State) (where string, kind s
 	var st2 gast.Stmt = &gast.Assign{LHS: gast.P("F", "I32"), Op: "=", RHS: f.Mk()}
 	if rapid.IntRange(0, 3).Draw(rt, "fail_stmt_kind") == 0 {
 		// failing store instead of failing evaluation
-		switch rapid.IntRange(0, 2).Draw(rt, "fail_store") {
+		switch rapid.IntRange(0, 3).Draw(rt, "fail_store") {
+		case 3:
+			st2 = &gast.Assign{LHS: gast.P("F", "M").At(gast.I(97)), Op: "=", RHS: gast.I(1)}
+			f.Name = "store_integer_key_on_string_map"
 		case 0:
 			st2 = &gast.Assign{LHS: gast.P("F", "Arr").At(gast.I(99)), Op: "=", RHS: gast.I(1)}
 			f.Name = "store_index_out_of_range"
